@@ -24,7 +24,10 @@ use std::net::{Ipv4Addr, Ipv6Addr, SocketAddr};
 use std::pin::Pin;
 use std::sync::{Arc, OnceLock};
 use thiserror::Error;
+#[cfg(not(penguin_rs_verif))]
 use tokio::net::TcpStream;
+#[cfg(penguin_rs_verif)]
+use penguin_simnet::TcpStream;
 use tokio_tungstenite::WebSocketStream;
 use tokio_tungstenite::tungstenite::protocol::Role;
 use tracing::{debug, error, warn};
